@@ -37,7 +37,7 @@ ASSUMPTIONS = [
 ]
 MIN_NONTRIVIAL = {"quick": 400, "thorough": 2500}
 MIN_OUTCOMES = {"quick": 30000, "thorough": 190000}
-MIN_SUB_TRACES = {"construct-origin": 300, "construct-center": 300, "from_sitk": 300, "chain": 300, "file": 300, "gridattrs": 300}
+MIN_SUB_TRACES = {"construct-origin": 300, "construct-center": 300, "from_sitk": 300, "chain": 300, "file": 300, "gridattrs": 300, "aliasing": 300}
 
 
 # ---------------------------------------------------------------------------
@@ -195,10 +195,10 @@ def cmp(got, exp, tol):
     return None
 
 
-def check_grid_maps(sink: Sink, cx: Ctx, sub: str, g, what: str, full: bool = True):
+def check_grid_maps(sink: Sink, cx: Ctx, sub: str, g, what: str, full: bool = True, case_sub: str = None):
     """index<->world of a real grid against the ITK oracle on the lattice, and the stated equivalences."""
     D = cx.D
-    case = cx.case(sub)
+    case = cx.case(case_sub or sub)
     ok = True
 
     def emit(call, kind, detail):
@@ -223,6 +223,8 @@ def check_grid_maps(sink: Sink, cx: Ctx, sub: str, g, what: str, full: bool = Tr
     idx32 = torch.tensor(cx.idx, dtype=torch.float32)
     run("index_to_world", lambda: g.index_to_world(idx32), cx.pts, cx.tol_w)
     run("world_to_index", lambda: g.world_to_index(torch.tensor(cx.pts, dtype=torch.float64)), cx.idx_back, cx.tol_i + 0.5e-6)
+    if not full:
+        run("origin()", lambda: g.origin().reshape(1, D), np.asarray(cx.cfg["origin"], dtype=np.float64)[None], cx.tol_o)
     if full:
         run("index_to_world(f64)", lambda: g.index_to_world(torch.tensor(cx.idx, dtype=torch.float64)), cx.pts, cx.tol_w)
         run("world_to_index(f32,decimals=None)", lambda: g.world_to_index(torch.tensor(cx.pts, dtype=torch.float32), decimals=None), cx.idx_back,
@@ -538,7 +540,126 @@ def sub_gridattrs(sink: Sink, cx: Ctx):
     sink.trace(sub)
 
 
-SUBS = ("construct-origin", "construct-center", "from_sitk", "chain", "file", "gridattrs")
+ARG_KINDS = ("list", "torch32", "torch64", "numpy32", "numpy64")
+
+
+def as_kind(values, kind: str, integer: bool = False):
+    """The same attribute values as a fresh argument object of the given container kind."""
+    a = np.asarray(values)
+    if kind == "list":
+        return a.tolist() if a.ndim > 1 else tuple(a.tolist())
+    if kind.startswith("torch"):
+        if integer:
+            return torch.tensor(a.astype(np.int64))
+        return torch.tensor(a, dtype=torch.float32 if kind == "torch32" else torch.float64)
+    if integer:
+        return a.astype(np.int64)
+    return a.astype(np.float32 if kind == "numpy32" else np.float64)
+
+
+def fingerprint(obj) -> bytes:
+    if isinstance(obj, torch.Tensor):
+        return tensor_bytes(obj)
+    if isinstance(obj, np.ndarray):
+        return str(obj.dtype).encode() + str(obj.shape).encode() + obj.tobytes()
+    return repr(obj).encode()
+
+
+def sub_aliasing(sink: Sink, cx: Ctx):
+    """Histories on shared argument objects: every construction route with the attributes given as lists,
+    torch tensors (float32/float64) and numpy arrays; every argument fingerprinted before/after; a second
+    grid built from the SAME argument objects; both grids re-judged against ITK afterwards; attribute
+    tensors returned by accessors reused as arguments must leave the grid they came from unchanged."""
+    from deepali.core.grid import Grid
+
+    sub = "aliasing"
+    cfg = cx.cfg
+    case = cx.case(sub)
+    D = cx.D
+
+    def emit(tag, kind, detail):
+        sink.violation(f"C02/{sub}/{tag}/{kind}{cx.suffix}", case, f"{tag}: {detail} [size {cfg['size']} spacing {cfg['spacing']} origin {cfg['origin']} dir {cfg['dir']}]", size=2)
+
+    def judge(g, cxx, tag, what):
+        return check_grid_maps(sink, cxx, f"{sub}/{tag}", g, what, full=False, case_sub=sub)
+
+    def args_unchanged(args, prints, tag):
+        ok = True
+        for k, v in args.items():
+            if fingerprint(v) != prints[k]:
+                ok = False
+                emit(tag, f"argument-mutated/{k}", f"the caller's '{k}' argument object was modified (now {np.asarray(v).reshape(-1)[:4].tolist()})")
+        return ok
+
+    for kind in ARG_KINDS:
+        for route in ("origin", "center"):
+            tag = f"{route}/{kind}"
+            args = {
+                "size": as_kind(cfg["size"], kind, integer=True),
+                "spacing": as_kind(cfg["spacing"], kind),
+                "direction": as_kind(cfg["direction"], kind),
+                route: as_kind(cfg["origin"] if route == "origin" else cx.center, kind),
+            }
+            prints = {k: fingerprint(v) for k, v in args.items()}
+            sink.trans()
+            st, g1 = guarded(lambda: Grid(**args))
+            if st == "raises":
+                emit(tag, "first/raises=" + type(g1).__name__, exc_text(g1))
+                continue
+            ok = args_unchanged(args, prints, tag + "/first")
+            ok = judge(g1, cx, tag + "/first", f"first Grid({route}=<{kind}>)") and ok
+            sink.trans()
+            st, g2 = guarded(lambda: Grid(**args))  # the SAME argument objects
+            if st == "raises":
+                emit(tag, "second/raises=" + type(g2).__name__, exc_text(g2))
+                continue
+            args_unchanged(args, prints, tag + "/second")
+            judge(g2, cx, tag + "/second", f"second Grid({route}=<{kind}>) from the same argument objects")
+            judge(g1, cx, tag + "/first-after-second", "first grid re-judged after the second construction")
+            sink.state(cx.key, sub, kind, route, ok)
+        # setters on a shared argument object
+        o2 = (np.asarray(cfg["origin"]) + np.array([3.5, -7.25, 11.0][:D])).tolist()
+        cx2 = Ctx(dict(cfg, origin=o2))
+        arg = as_kind(o2, kind)
+        fp = fingerprint(arg)
+        tag = f"setter/{kind}"
+        sink.trans(3)
+        st, gs = guarded(lambda: (Grid(center=0, **grid_kwargs(cfg)).origin(arg), Grid(center=0, **grid_kwargs(cfg)).origin_(arg), Grid(center=0, **grid_kwargs(cfg)).origin(arg)))
+        if st == "raises":
+            emit(tag, "raises=" + type(gs).__name__, exc_text(gs))
+        else:
+            if fingerprint(arg) != fp:
+                emit(tag, "argument-mutated/origin", "the caller's origin argument object was modified by origin()/origin_()")
+            for k, g in enumerate(gs):
+                judge(g, cx2, f"{tag}/grid{k + 1}", f"grid {k + 1} of three given the same origin argument object")
+    # attribute tensors returned by accessors, reused as arguments of other grids
+    sink.trans()
+    st, ga = guarded(lambda: Grid(origin=tuple(cfg["origin"]), **grid_kwargs(cfg)))
+    if st == "ok" and judge(ga, cx, "accessor/base", "base grid"):
+        cxc = Ctx(dict(cfg, origin=cx.center.tolist()))  # header whose origin is the base grid's center
+        steps = (
+            ("Grid(origin=g.origin())", lambda: Grid(size=ga.size(), origin=ga.origin(), spacing=ga.spacing(), direction=ga.direction()), cx),
+            ("Grid(center=g.center())", lambda: Grid(size=ga.size(), center=ga.center(), spacing=ga.spacing(), direction=ga.direction()), cx),
+            ("other.origin(g.center())", lambda: Grid(center=0, **grid_kwargs(cfg)).origin(ga.center()), cxc),
+            ("other.origin_(g.center())", lambda: Grid(center=0, **grid_kwargs(cfg)).origin_(ga.center()), cxc),
+            ("other.center(g.origin())", lambda: Grid(center=0, **grid_kwargs(cfg)).center(ga.origin()), None),
+            ("g.origin(g.origin())", lambda: ga.origin(ga.origin()), cx),
+        )
+        for name, fn, cxx in steps:
+            tag = "accessor/" + name
+            sink.trans()
+            st, gb = guarded(fn)
+            if st == "raises":
+                emit(tag, "raises=" + type(gb).__name__, exc_text(gb))
+                continue
+            if cxx is not None:
+                judge(gb, cxx, tag + "/new", f"grid returned by {name}")
+            judge(ga, cx, tag + "/source-after", f"grid whose accessor result was passed to {name}, re-judged")
+        sink.state(cx.key, sub, "accessor")
+    sink.trace(sub, depth=3)
+
+
+SUBS = ("construct-origin", "construct-center", "from_sitk", "chain", "file", "gridattrs", "aliasing")
 
 
 def run_config(sink: Sink, cfg, tmpdir: str, only: str = None):
@@ -559,6 +680,8 @@ def run_config(sink: Sink, cfg, tmpdir: str, only: str = None):
             sub_file(sink, cx, tmpdir)
         elif sub == "gridattrs":
             sub_gridattrs(sink, cx)
+        elif sub == "aliasing":
+            sub_aliasing(sink, cx)
     if only is None and (not np.allclose(R, np.eye(cx.D)) or np.abs(np.asarray(cfg["origin"])).max() > 0):
         sink.nontriv(cx.key)
 
